@@ -97,6 +97,11 @@ PROPS = {
         'Seeded search over histories with counts n in [-3,5], condition outcome sequences as bit patterns, conditions with and without the trigger argument, plain listeners before/after, direct and queued triggers, re-entrant triggers of the same key from inside the wrapped listener, and direct removals, on CallbackList, EventDispatcher, EventQueue and HeterEventDispatcher. The helper objects are temporaries destroyed before the first trigger. Every listener call and every condition evaluation is checked when it happens.',
         'Trusted: the counting model. Wrapped listeners cannot be identified by enumeration, so attachment is observed through triggers (two closing trigger rounds per list).',
         'Each evaluation is one seeded history of 10-40 operations. Non-trivial = a listener is added through CounterRemover or ConditionalRemover; distinct = distinct plan hashes.'),
+    'C17': seq_prop('seq_anydata', [st('c17', 'seq_anydata', 'c17', 300000, 6000000), st('c17-faults', 'seq_anydata', 'c09', 20000, 400000)],
+        'seeded move-chain / read / EventQueue round-trip histories over a compile-time sweep of AnyData capacities and stored types, ledger-tracked; the second stage re-runs the histories with the k-th allocation / copy / move throwing',
+        'Compile-time sweep: AnyData<N> for N in {1, 8, 16, 24, 64} (capacities 16, 16, 16, 24, 64) x 48 stored types: trivial byte arrays of 22 sizes from 1 to 200 bytes (every capacity, capacity + 1 and capacity + 2 among them), tracked non-trivial, move-only and shared-ownership types of 6-10 sizes each. Per history: construction from lvalue and rvalue, chains of move constructions over 4 slots, reads through get / reference / pointer / getAddress (must agree and be stable), isType for the stored type and for a different type of the same size and kind, queue round trips (enqueue, process / processOne) with the listener reading the value, destruction in any order; inline-vs-heap placement is checked against the capacity; the ledger demands exactly one destruction per instance and nothing alive at the end.',
+        'Trusted: the ledger. Bound: stored types with alignment <= alignof(void*). takeEvent cannot be instantiated for AnyData arguments (AnyData deletes move assignment), so queue round trips use process / processOne.',
+        'Each evaluation is one seeded history of 6-25 operations on one (N, stored type) pair. Non-trivial = contains a move construction or a queue round trip; distinct = distinct plan hashes.'),
     'C19': seq_prop('seq_list', [st('c19', 'seq_list', 'c19', 300000, 6000000)],
         'seeded histories with a generation-clock jump fault (guarded accessor) placed anywhere, including inside nested invocations; lockstep snapshot model with the statement\'s own relaxation for invocations in progress at the wrap',
         'The wrap of the 32-bit generation counter is injected as a forward clock jump on the list\'s logical clock (k = 0..6 additions before the maximum) at seeded points of re-entrant copy/move/swap histories. The harness learns the wrap moment by observation; only invocations in progress at that moment get the statement\'s relaxation, every later invocation is held to the strict model.',
@@ -124,13 +129,14 @@ PROPS = {
         'Seeded search over histories that interleave copy construction, copy assignment (incl. self), move construction, move assignment, swap (member / ADL / self), destruction and re-creation with the full operation sets of C01/C02/C05 on every pool member, for CallbackList, EventDispatcher and EventQueue; every object is placement-constructed into storage filled with random bytes, 0xFF, 0x00 or the previous occupant\'s bytes. Lists with widely different generation counters come from the C19 accessor.',
         'Trusted: the models; the moved-from std::map is assumed empty (true for libstdc++). Self-move-assignment is not generated. The heterogeneous classes run in the third stage (same pool operations on HeterCallbackList, HeterEventDispatcher, HeterEventQueue).',
         'Each evaluation is one seeded history over a pool of up to 4 (lists/dispatchers) or 3 (queues) objects. Non-trivial = the history contains a copy/move/assign/swap; distinct = distinct plan hashes.'),
-    'C08': seq_prop('seq_list', [st('c08-list', 'seq_list', 'c08', 250000, 5000000), st('c08-queue', 'seq_queue', 'c08', 200000, 4000000)],
+    'C08': seq_prop('seq_list', [st('c08-list', 'seq_list', 'c08', 250000, 5000000), st('c08-queue', 'seq_queue', 'c08', 200000, 4000000),
+         st('c08-exceptions-list', 'seq_list', 'c09', 6000, 200000, 120, 1200), st('c08-exceptions-queue', 'seq_queue', 'c09', 4000, 120000, 120, 1200)],
         'live-instance ledger enforced as an invariant at every quiescent point of seeded ownership-stress programs (removal during invocation, recycled slots, copy/move/swap chains, clearEvents, destruction with pending events, generation-counter jumps), under ASan; the same ledger is also an invariant of every C03/C06/C07/C11 simulated schedule and of every C09 fault run',
         'Every construction and destruction of every harness callback, listener and argument object is recorded by address. Immediately flagged: double destruction, copy/move/invoke of a non-live or wrong-type instance. At every quiescent point: a callback that is in no container has no live instance, a stored one has at least one per holder; arguments of cleared events are gone when clearEvents returns; after destroying every container nothing is alive.',
         'Trusted: the ledger (sim/ledger.h). The number of transient copies std::function makes is never counted, only liveness at quiescence. The documentation lets queue slots keep arguments until reuse; the check asks no more than the statement.',
-        'Each evaluation is one seeded re-entrant program over a pool of lists/dispatchers (stage c08-list) or queues (stage c08-queue) with scripts, pool operations and counter jumps enabled together. Non-trivial = contains an invocation / processing call; distinct = distinct plan hashes.'),
+        'Each evaluation is one seeded re-entrant program over a pool of lists/dispatchers (stage c08-list) or queues (stage c08-queue) with scripts, pool operations and counter jumps enabled together; the two c08-exceptions stages run the C09 fault enumeration (every k-th fault point of every operation) because the statement includes histories with exceptions. Non-trivial = contains an invocation / processing call; distinct = distinct plan hashes.'),
     'C09': seq_prop('seq_list', [st('c09-list', 'seq_list', 'c09', 12000, 400000, 120, 1200), st('c09-queue', 'seq_queue', 'c09', 8000, 250000, 120, 1200),
-         st('c09-dispatcher', 'seq_disp', 'c09', 8000, 250000, 120, 1200), st('c09-heter', 'seq_heter', 'c09', 8000, 250000, 120, 1200), st('c09-removers', 'seq_remover', 'c09', 8000, 250000, 120, 1200)],
+         st('c09-dispatcher', 'seq_disp', 'c09', 8000, 250000, 120, 1200), st('c09-heter', 'seq_heter', 'c09', 8000, 250000, 120, 1200), st('c09-removers', 'seq_remover', 'c09', 8000, 250000, 120, 1200), st('c09-anydata', 'seq_anydata', 'c09', 8000, 250000, 120, 1200)],
         'systematic fault injection: for every operation of every seeded history, a throw at the k-th fault point for every k (allocation through a replaced operator new; copy, move, comparison and invocation of user types), singly and with a seeded second fault later in the same execution',
         'For each seeded plan the harness first runs fault-free and records, per top-level operation i, the number N_i of fault points it passes; it then re-executes the plan once for every (i, k <= N_i) with the k-th point of operation i throwing (std::bad_alloc for allocations, InjectedFault otherwise). Checked: the exception reaches the caller (no terminate, no swallowed fault); strong-guarantee operations leave the complete observable state equal to the model\'s pre-call state; failed container copies leave the source intact and the destination valid; an exception out of an invocation / processing call leaves the lists as the callbacks left them and discards exactly the events that call had taken out; the rest of the plan conforms fault-free; nothing leaks.',
         'Enumeration is exhaustive per generated history (every k), histories are sampled by seed. Trusted: the replaced operator new covers every allocation of the binary; faults are armed only for the duration of library calls.',
